@@ -883,6 +883,10 @@ impl Hooks for SimHooks {
 
     fn event(&self, ev: Ev, a: usize, b: usize) {
         let me = sim_id().unwrap();
+        if ev == Ev::Retire {
+            let _q = quiet();
+            crate::exec::retire_probe(a);
+        }
         {
             let mut g = sched().inner.lock().unwrap();
             let clock = g.clock;
